@@ -200,14 +200,16 @@ Definition cc_mkdir_body (s : mst) (name : str) (perm : Z) : mst :=
   let s2 := set_data s1 (alist_set name item (mdata s1)) in
   reg s2 item perm.
 
-(* openOrCreate's write-locked section: None = O_EXCL on an existing name *)
-Definition cc_open_or_create (s : mst) (name : str) (flag perm : Z) : option (mst * nat) :=
+(* openOrCreate's write-locked section: inl = its error — EEXIST (O_EXCL on an existing name) or
+   ENOTDIR (lockfreeBelowFile: a free name whose nearest existing ancestor is a regular file) *)
+Definition cc_open_or_create (s : mst) (name : str) (flag perm : Z) : errk + (mst * nat) :=
   match lookup s name with
-  | Some x => if flag_has flag o_excl then None else Some (s, x)
+  | Some x => if flag_has flag o_excl then inl KExist else inr (s, x)
   | None =>
+    if below_file s name then inl KENOTDIR else
     let '(s1, x) := alloc_node s (with_mode perm (new_file name (mclock s))) in
     let s2 := set_data s1 (alist_set name x (mdata s1)) in
-    Some (reg s2 x 0, x)
+    inr (reg s2 x 0, x)
   end.
 
 (* the semantics of the actions; [f] is the frame of the running call *)
@@ -230,7 +232,9 @@ Definition cc_sem (a : cc_aid) (f : cc_frame) (s0 : mst) : cc_out :=
       | Some _ => CcCont s (fr_set_res f (if cc_is_mkdirall o then ROk else RErr (EW KExist))) [CcRel LkW]
       | None =>
         let perm := cc_perm o in
-        CcCont (cc_mkdir_body s name perm) (fr_set_res f ROk) [CcRel LkW]
+        if below_file s name
+        then CcCont s (fr_set_res f (RErr (EW KENOTDIR))) [CcRel LkW]      (* lockfreeBelowFile *)
+        else CcCont (cc_mkdir_body s name perm) (fr_set_res f ROk) [CcRel LkW]
       end
   | AOpen => let '(s1, r) := m_open s name in CcCont s1 (fr_set_res f r) [CcRel LkR]
   | AStatLookup =>
@@ -269,8 +273,8 @@ Definition cc_sem (a : cc_aid) (f : cc_frame) (s0 : mst) : cc_out :=
       let flag := cc_flag o in
       let ro := Z.eqb (Z.land flag memfs_access_mask) 0 in
       match cc_open_or_create s name flag (cc_perm o) with
-      | None => CcCont s (fr_set_res f (RErr (EW KExist))) []
-      | Some (s1, x) =>
+      | inl k => CcCont s (fr_set_res f (RErr (EW k))) []
+      | inr (s1, x) =>
         let '(s2, h) := alloc_handle s1 (mkH x 0 0 false ro) in
         CcCont (cc_of_finish s2 x h flag) (fr_set_res (fr_set_h (fr_set_ref f x) h) (RHandle h)) []
       end
@@ -875,21 +879,22 @@ Definition cc_locktab : list (string * string) := [
   ("MemMapFs.Chmod", "mu.Lock defer:mu.Unlock if{ ret } call:Mode call:SetMode ret");
   ("MemMapFs.Chown", "mu.RLock mu.RUnlock if{ ret } call:SetUID call:SetGID ret");
   ("MemMapFs.Chtimes", "mu.Lock defer:mu.Unlock if{ ret } call:SetModTime ret");
-  ("MemMapFs.Create", "mu.Lock call:IsDir if{ call:Truncate } else{ call:registerWithParent } mu.Unlock ret");
+  ("MemMapFs.Create", "mu.Lock call:IsDir if{ call:Truncate } else{ call:lockfreeBelowFile if{ mu.Unlock ret } call:registerWithParent } mu.Unlock ret");
   ("MemMapFs.List", "mu.RLock defer:mu.RUnlock for{ call:Name call:Size }");
   ("MemMapFs.LstatIfPossible", "call:Stat ret");
-  ("MemMapFs.Mkdir", "mu.RLock mu.RUnlock if{ ret } mu.Lock if{ mu.Unlock ret } call:SetMode call:registerWithParent mu.Unlock ret");
+  ("MemMapFs.Mkdir", "mu.RLock mu.RUnlock if{ ret } mu.Lock if{ mu.Unlock ret } call:lockfreeBelowFile if{ mu.Unlock ret } call:SetMode call:registerWithParent mu.Unlock ret");
   ("MemMapFs.MkdirAll", "call:Mkdir if{ if{ ret } ret } ret");
   ("MemMapFs.Open", "call:open if{ ret } ret");
   ("MemMapFs.OpenFile", "if{ mu.Lock defer:mu.Unlock call:lockfreeOpenOrCreate } else{ mu.RLock defer:mu.RUnlock } if{ ret } if{ call:Seek if{ call:Close ret } } if{ call:Truncate if{ call:Close ret } } ret");
   ("MemMapFs.Remove", "mu.Lock defer:mu.Unlock if{ call:unRegisterWithParent if{ ret } } else{ ret } ret");
   ("MemMapFs.RemoveAll", "mu.Lock defer:mu.Unlock call:unRegisterWithParent ret");
-  ("MemMapFs.Rename", "mu.Lock defer:mu.Unlock if{ if{ ret } call:unRegisterWithParent if{ ret } call:ChangeFileName call:renameDescendants if{ ret } call:registerWithParent } else{ ret } ret");
+  ("MemMapFs.Rename", "mu.Lock defer:mu.Unlock if{ if{ ret } call:lockfreeBelowFile if{ ret } call:unRegisterWithParent if{ ret } call:ChangeFileName call:renameDescendants if{ ret } call:registerWithParent } else{ ret } ret");
   ("MemMapFs.Stat", "call:Open if{ ret } ret");
   ("MemMapFs.findDescendants", "func{ call:Name call:Name ret } ret");
   ("MemMapFs.findParent", "call:Name if{ ret } ret");
+  ("MemMapFs.lockfreeBelowFile", "for{ if{ call:IsDir ret } if{ ret } }");
   ("MemMapFs.lockfreeMkdir", "if{ call:IsDir if{ ret } } else{ call:SetMode call:registerWithParent } ret");
-  ("MemMapFs.lockfreeOpenOrCreate", "if{ if{ ret } ret } call:SetMode call:registerWithParent ret");
+  ("MemMapFs.lockfreeOpenOrCreate", "if{ if{ ret } ret } call:lockfreeBelowFile if{ ret } call:SetMode call:registerWithParent ret");
   ("MemMapFs.open", "mu.RLock mu.RUnlock if{ ret } ret");
   ("MemMapFs.registerWithParent", "if{ ret } call:findParent if{ call:Name call:lockfreeMkdir if{ ret } if{ ret } } parent.Lock defer:parent.Unlock");
   ("MemMapFs.renameDescendants", "call:findDescendants for{ call:Name call:Name call:unRegisterWithParent if{ ret } call:Name call:ChangeFileName call:registerWithParent } ret");
